@@ -146,6 +146,19 @@ class Check:
         return out
 
     # ---------------------------------------------------------------- TLC
+    @staticmethod
+    def _jenv(wd, heap=None):
+        """Environment for a TLC run: the JVM's temp directory inside the run's scratch directory (TLC leaves an
+        empty tlc-<n> directory in java.io.tmpdir on every start), optional heap size."""
+        env = dict(os.environ)
+        jt = os.path.join(wd, "jtmp")
+        os.makedirs(jt, exist_ok=True)
+        opts = env.get("JAVA_TOOL_OPTIONS", "") + " -Djava.io.tmpdir=%s" % jt
+        if heap:
+            opts += " -Xmx%s" % heap
+        env["JAVA_TOOL_OPTIONS"] = opts.strip()
+        return env
+
     def tlc(self, module, cfg, workers=None, timeout=900, simulate=None, depth=None, extra=(), files=None,
             coverage=False, name=None, must_pass=True, heap=None, count=True):
         """Run TLC on spec/<module>.tla with spec/<cfg> in a private copy of the spec directory."""
@@ -164,9 +177,7 @@ class Check:
         if coverage:
             cmd += ["-coverage", "1"]
         cmd += list(extra) + [module]
-        env = dict(os.environ)
-        if heap:
-            env["JAVA_TOOL_OPTIONS"] = (env.get("JAVA_TOOL_OPTIONS", "") + " -Xmx%s" % heap).strip()
+        env = self._jenv(wd, heap)
         t = time.time()
         p = subprocess.run(cmd, cwd=wd, env=env, capture_output=True, text=True)
         r = TLCResult(p.stdout + p.stderr, p.returncode, time.time() - t)
@@ -197,8 +208,7 @@ class Check:
                 f.write(content)
         outp = os.path.join(wd, "tlc.out")
         cmd = ["timeout", str(timeout), "tlc", "-metadir", os.path.join(wd, "md"), "-config", cfg, "-workers", str(workers or NCPU), module]
-        env = dict(os.environ)
-        env["JAVA_TOOL_OPTIONS"] = (env.get("JAVA_TOOL_OPTIONS", "") + " -Xmx%s" % heap).strip()
+        env = self._jenv(wd, heap)
         t = time.time()
         with open(outp, "w") as fo:
             p = subprocess.run(cmd, cwd=wd, env=env, stdout=fo, stderr=subprocess.STDOUT)
